@@ -127,6 +127,7 @@ package decor
 //@   requires d != nil
 //@   modifies pkgstate("decor"), sent(), recvd()
 //@   ensures  honest: result1 >= 0 && dw(result0) == result1
+//@   ensures  frozen@C20: s.Completed ==> d.msg == old(d.msg) && calledWith("(WC).Format", 1) == old(d.msg)
 
 //@ func (metaWrapper).Decor
 //@   props    C07 C12
@@ -187,3 +188,117 @@ package decor
 //@ func NewMedian
 //@   props    C07 C02
 //@   ensures  result != nil
+
+// ---------------------------------------------------------------------------------------
+// C20: size, percentage, time and rate decorators print the true value
+//
+// What is proved is everything up to the hand-over to strconv.AppendFloat / fmt: which
+// number, which unit, which verb and precision, which separator and suffix, written once.
+// The formatting of the float itself is strconv's (assumed).
+
+//@ func (SizeB1024).Format
+//@   props    C20 C02
+//@   requires f != nil
+//@   ensures  largest: s >= 0 ==> unit <= max(s, 1) && (unit == _iTiB || s < unit * 1024) && (unit == 1 || unit == _iKiB || unit == _iMiB || unit == _iGiB || unit == _iTiB)
+//@   ensures  value: calledWith("strconv.AppendFloat", 1) == fdiv(i2f(s), i2f(unit)) && called("strconv.AppendFloat") == old(called("strconv.AppendFloat")) + 1
+//@   ensures  verb: calledWith("strconv.AppendFloat", 2) == ite(in(verb) == 102 || in(verb) == 101 || in(verb) == 69 || in(verb) == 98 || in(verb) == 103 || in(verb) == 71 || in(verb) == 120 || in(verb) == 88, in(verb), 102)
+//@   ensures  once: called("fmt.State.Write") == old(called("fmt.State.Write")) + 1
+//@   ensures  text: calledWith("fmt.State.Write", 1) == returned("strconv.AppendFloat", 0) + ite(returned("fmt.State.Flag", 0), " ", "") + returned("(SizeB1024).String", 0)
+//@   ensures  suffix: calledWith("(SizeB1024).String", 0) == unit
+
+//@ func (SizeB1000).Format
+//@   props    C20 C02
+//@   requires f != nil
+//@   ensures  largest: s >= 0 ==> unit <= max(s, 1) && (unit == _TB || s < unit * 1000) && (unit == 1 || unit == _KB || unit == _MB || unit == _GB || unit == _TB)
+//@   ensures  value: calledWith("strconv.AppendFloat", 1) == fdiv(i2f(s), i2f(unit)) && called("strconv.AppendFloat") == old(called("strconv.AppendFloat")) + 1
+//@   ensures  verb: calledWith("strconv.AppendFloat", 2) == ite(in(verb) == 102 || in(verb) == 101 || in(verb) == 69 || in(verb) == 98 || in(verb) == 103 || in(verb) == 71 || in(verb) == 120 || in(verb) == 88, in(verb), 102)
+//@   ensures  once: called("fmt.State.Write") == old(called("fmt.State.Write")) + 1
+//@   ensures  text: calledWith("fmt.State.Write", 1) == returned("strconv.AppendFloat", 0) + ite(returned("fmt.State.Flag", 0), " ", "") + returned("(SizeB1000).String", 0)
+//@   ensures  suffix: calledWith("(SizeB1000).String", 0) == unit
+
+//@ func (percentageType).Format
+//@   props    C20 C02
+//@   requires st != nil
+//@   ensures  value: calledWith("strconv.AppendFloat", 1) == s && called("strconv.AppendFloat") == old(called("strconv.AppendFloat")) + 1
+//@   ensures  verb: calledWith("strconv.AppendFloat", 2) == ite(in(verb) == 102 || in(verb) == 101 || in(verb) == 69 || in(verb) == 98 || in(verb) == 103 || in(verb) == 71 || in(verb) == 120 || in(verb) == 88, in(verb), 102)
+//@   ensures  once: called("fmt.State.Write") == old(called("fmt.State.Write")) + 1
+//@   ensures  text: calledWith("fmt.State.Write", 1) == returned("strconv.AppendFloat", 0) + ite(returned("fmt.State.Flag", 0), " %", "%")
+
+//@ func (*speedFormatter).Format
+//@   props    C20 C02
+//@   requires s != nil && s.Formatter != nil && st != nil
+//@   ensures  inner: called("fmt.Formatter.Format") == old(called("fmt.Formatter.Format")) + 1 && calledWith("fmt.Formatter.Format", 1) == st && calledWith("fmt.Formatter.Format", 2) == verb
+//@   ensures  suffix: called("io.WriteString") == old(called("io.WriteString")) + 1 && calledWith("io.WriteString", 1) == "/s"
+
+// time producers: exact decomposition for 0 <= d < 60 h (the documented domain; the hours
+// field is taken modulo 60, which is the identity there)
+
+//@ func chooseTimeProducer$1
+//@   props    C20 C02
+//@   noovf
+//@   ensures  decomposition: 0 <= remaining && remaining < 60 * 3600000000000
+//@              ==> hours * 3600 + minutes * 60 + seconds == remaining / 1000000000 && hours == remaining / 3600000000000
+//@                  && 0 <= minutes && minutes < 60 && 0 <= seconds && seconds < 60
+//@   ensures  fields: calledWith("fmt.Sprintf", 0) == "%02d:%02d:%02d" && len(calledWith("fmt.Sprintf", 1)) == 3
+//@              && unboxAs(calledWith("fmt.Sprintf", 1)[0], "int64") == hours && unboxAs(calledWith("fmt.Sprintf", 1)[1], "int64") == minutes
+//@              && unboxAs(calledWith("fmt.Sprintf", 1)[2], "int64") == seconds
+
+//@ func chooseTimeProducer$2
+//@   props    C20 C02
+//@   noovf
+//@   ensures  decomposition: 0 <= remaining && remaining < 60 * 3600000000000
+//@              ==> hours * 60 + minutes == remaining / 60000000000 && 0 <= minutes && minutes < 60
+//@   ensures  fields: calledWith("fmt.Sprintf", 0) == "%02d:%02d" && len(calledWith("fmt.Sprintf", 1)) == 2
+//@              && unboxAs(calledWith("fmt.Sprintf", 1)[0], "int64") == hours && unboxAs(calledWith("fmt.Sprintf", 1)[1], "int64") == minutes
+
+//@ func chooseTimeProducer$3
+//@   props    C20 C02
+//@   noovf
+//@   ensures  decomposition: 0 <= remaining && remaining < 60 * 3600000000000
+//@              ==> hours * 3600 + minutes * 60 + seconds == remaining / 1000000000 && hours == remaining / 3600000000000
+//@                  && 0 <= minutes && minutes < 60 && 0 <= seconds && seconds < 60
+//@   ensures  three: hours > 0 ==> calledWith("fmt.Sprintf", 0) == "%02d:%02d:%02d" && len(calledWith("fmt.Sprintf", 1)) == 3
+//@              && unboxAs(calledWith("fmt.Sprintf", 1)[0], "int64") == hours && unboxAs(calledWith("fmt.Sprintf", 1)[1], "int64") == minutes
+//@              && unboxAs(calledWith("fmt.Sprintf", 1)[2], "int64") == seconds
+//@   ensures  two: hours <= 0 ==> calledWith("fmt.Sprintf", 0) == "%02d:%02d" && len(calledWith("fmt.Sprintf", 1)) == 2
+//@              && unboxAs(calledWith("fmt.Sprintf", 1)[0], "int64") == minutes && unboxAs(calledWith("fmt.Sprintf", 1)[1], "int64") == seconds
+
+// estimators conserve time: a sample without progress is carried, never dropped or divided by zero
+// (domain: the carried duration plus the sample stays below 2^63 ns)
+
+//@ func (*movingAverageETA).EwmaUpdate
+//@   props    C20 C02 C19
+//@   requires d != nil && d.average != nil
+//@   requires -(1<<61) <= d.zDur && d.zDur <= 1<<61 && -(1<<61) <= dur && dur <= 1<<61
+//@   modifies d.zDur
+//@   ensures  carried: n <= 0 ==> d.zDur == old(d.zDur) + dur && called("ewma.MovingAverage.Add") == old(called("ewma.MovingAverage.Add"))
+//@   ensures  conserved: d.zDur == old(d.zDur) + dur && called("ewma.MovingAverage.Add") == old(called("ewma.MovingAverage.Add"))
+//@              || d.zDur == 0 && called("ewma.MovingAverage.Add") == old(called("ewma.MovingAverage.Add")) + 1
+//@                 && calledWith("ewma.MovingAverage.Add", 1) == fdiv(i2f(old(d.zDur) + dur), i2f(n))
+
+//@ func (*movingAverageSpeed).EwmaUpdate
+//@   props    C20 C02 C19
+//@   requires d != nil && d.average != nil
+//@   requires -(1<<61) <= d.zDur && d.zDur <= 1<<61 && -(1<<61) <= dur && dur <= 1<<61
+//@   modifies d.zDur
+//@   ensures  carried: n <= 0 ==> d.zDur == old(d.zDur) + dur && called("ewma.MovingAverage.Add") == old(called("ewma.MovingAverage.Add"))
+//@   ensures  conserved: d.zDur == old(d.zDur) + dur && called("ewma.MovingAverage.Add") == old(called("ewma.MovingAverage.Add"))
+//@              || d.zDur == 0 && called("ewma.MovingAverage.Add") == old(called("ewma.MovingAverage.Add")) + 1
+//@                 && calledWith("ewma.MovingAverage.Add", 1) == fdiv(i2f(old(d.zDur) + dur), i2f(n))
+
+// frozen once the bar has finished
+
+//@ func NewElapsed$1
+//@   props    C20
+//@   requires producer != nil
+//@   ensures  frozen: s.Completed || s.Aborted ==> result == old(msg) && msg == old(msg)
+//@   ensures  live: !(s.Completed || s.Aborted) ==> result == msg && called("NewElapsed$1.producer") == old(called("NewElapsed$1.producer")) + 1
+
+//@ functype NewElapsed$1.producer
+//@   modifies nothing
+
+//@ func NewPercentage$1
+//@   props    C20 C02
+//@   requires 0 <= s.Current && s.Current <= s.Total
+//@   ensures  calledWith("Percentage", 0) == s.Total && calledWith("Percentage", 1) == s.Current
+//@            && calledWith("Percentage", 2) == 100
